@@ -177,13 +177,46 @@ Layout(e) ==
               /\ (o.ew = 0 /\ o.eh = 0 /\ o.label = 1 /\ o.lside = "" /\ o.lpos \in {"", "INSIDE_MIDDLE_CENTER"} /\ o.innerW > 0) =>
                    Chk(o.lw <= o.innerW + 1 /\ o.lh <= o.innerH + 1, "C21", "label-does-not-fit-the-text-area-of-an-auto-sized-shape", <<e.engine, o.id, o.shape, <<o.lw, o.lh>>, <<o.innerW, o.innerH>>>>)
 
+
+\* ------------------------------------------------------------------ export and render (C28 C29 C30 C31 C25)
+Vocab == JsonDeserialize("svg_vocab.json")
+SetOf(q) == {q[k] : k \in 1..Len(q)}
+Export(e) ==
+  /\ Chk(e.ok = 1, "C28", "export-failed", e.theme)
+  /\ e.ok = 1 =>
+       /\ Chk(Len(e.shapeIDs) = Len(e.objIDs) /\ SetOf(e.shapeIDs) = SetOf(e.objIDs) /\ Cardinality(SetOf(e.shapeIDs)) = Len(e.shapeIDs),
+              "C28", "shapes-are-not-one-to-one-with-objects", <<e.theme, SetOf(e.shapeIDs) \ SetOf(e.objIDs), SetOf(e.objIDs) \ SetOf(e.shapeIDs), Len(e.shapeIDs), Len(e.objIDs)>>)
+       /\ Chk(Len(e.conns) = Len(e.edges) /\ SetOf(e.conns) = SetOf(e.edges), "C28", "connections-are-not-one-to-one-with-source-and-destination", <<e.theme, SetOf(e.conns) \ SetOf(e.edges), SetOf(e.edges) \ SetOf(e.conns)>>)
+       /\ \A k \in 1..Len(e.styles) : Chk(e.styles[k].same = 1, "C28", "user-style-changed-by-export", <<e.theme, e.styles[k].id, e.styles[k].key, e.styles[k].user, e.styles[k].exported>>)
+Render(e) ==
+  /\ Chk(e.ok = 1, "C30", "render-failed", e.msg)
+  /\ e.ok = 1 =>
+       \* ---- C29
+       /\ \A k \in 1..Len(e.extents) : LET x == e.extents[k] IN
+            \* 1 px: the extents are floor/ceil of real coordinates, the box truncates them
+            Chk(x[2] >= e.bbox[1] - 1 /\ x[3] >= e.bbox[2] - 1 /\ x[4] <= e.bbox[3] + 1 /\ x[5] <= e.bbox[4] + 1, "C29", "drawn-extent-outside-the-reported-bounding-box", <<x, e.bbox>>)
+       /\ Chk(e.viewBox[1] <= e.bbox[1] - e.pad /\ e.viewBox[2] <= e.bbox[2] - e.pad /\ e.viewBox[1] + e.viewBox[3] >= e.bbox[3] + e.pad /\ e.viewBox[2] + e.viewBox[4] >= e.bbox[4] + e.pad,
+              "C29", "viewport-does-not-contain-bounding-box-plus-padding", <<e.viewBox, e.bbox, e.pad>>)
+       \* ---- C30
+       /\ Chk(e.xmlOK = 1, "C30", "svg-is-not-well-formed-xml", e.combo)
+       /\ Chk(e.markerInNames = 0, "C30", "user-text-inside-an-element-or-attribute-name-or-duplicate-attribute", e.markerInNames)
+       /\ Chk(SetOf(e.elems) \subseteq SetOf(Vocab.elems), "C30", "element-outside-the-renderers-vocabulary", SetOf(e.elems) \ SetOf(Vocab.elems))
+       /\ Chk(SetOf(e.attrs) \subseteq SetOf(Vocab.attrs), "C30", "attribute-outside-the-renderers-vocabulary", SetOf(e.attrs) \ SetOf(Vocab.attrs))
+       \* ---- C31
+       /\ \A c \in DOMAIN e.cssExpected : Chk(c \in DOMAIN e.css /\ e.css[c] = e.cssExpected[c], "C31", "theme-colour-class-is-neither-the-themes-colour-nor-the-override",
+                                              <<e.theme, c, IF c \in DOMAIN e.css THEN e.css[c] ELSE "missing", e.cssExpected[c]>>)
+       /\ \A c \in DOMAIN e.cssDarkExpected : Chk(c \in DOMAIN e.cssDark /\ e.cssDark[c] = e.cssDarkExpected[c], "C31", "dark-theme-colour-class-is-neither-the-themes-colour-nor-the-override",
+                                                  <<e.dark, c, IF c \in DOMAIN e.cssDark THEN e.cssDark[c] ELSE "missing", e.cssDarkExpected[c]>>)
+       \* ---- C25
+       /\ \A k \in 1..Len(e.again) : Chk(e.again[k] = e.digest, "C25", "same-input-and-options-rendered-to-different-bytes", <<e.combo, e.digest, e.again[k]>>)
+
 Serde(e) ==
   /\ Chk(e.rtBefore = 1, "C26", "graph-changed-by-serialize-deserialize-before-layout", e.msg)
   /\ Chk(e.rtAfter = 1, "C26", "graph-changed-by-serialize-deserialize-after-layout", e.msg)
   /\ Chk(e.sameResult = 1, "C26", "layout-through-the-wire-format-differs-from-in-process", e.msg)
 
 Crash(e) ==
-  LET prop == CASE e.stage = "compile" -> "C07" [] e.stage = "fmt" -> "C03" [] e.stage = "layout" -> "C17" [] e.stage = "render" -> "C17" [] e.stage = "serde" -> "C26" [] OTHER -> "C17"
+  LET prop == CASE e.stage = "compile" -> "C07" [] e.stage = "fmt" -> "C03" [] e.stage = "layout" -> "C17" [] e.stage = "render" -> (IF stage = "layout" /\ FALSE THEN "C17" ELSE "C30") [] e.stage = "export" -> "C28" [] e.stage = "serde" -> "C26" [] OTHER -> "C17"
   IN Chk(FALSE, prop, IF e.ev = "panic" THEN "stage-crashed" ELSE "stage-did-not-terminate", <<e.stage, IF "msg" \in DOMAIN e THEN e.msg ELSE "">>)
 
 Init == l = 1 /\ tid = 0 /\ stage = "none"
@@ -197,6 +230,9 @@ Next ==
          [] e.ev = "fmt"       -> Fmt(e) /\ UNCHANGED <<tid, stage>>
          [] e.ev = "layout"    -> Layout(e) /\ Special(e) /\ stage' = "layout" /\ UNCHANGED tid
          [] e.ev = "serde"     -> Serde(e) /\ UNCHANGED <<tid, stage>>
+         [] e.ev = "export"    -> Export(e) /\ UNCHANGED <<tid, stage>>
+         [] e.ev = "render"    -> Render(e) /\ stage' = "render" /\ UNCHANGED tid
+         [] e.ev = "badtheme"  -> Chk(e.rejected = 1, "C31", "unknown-theme-id-accepted", e) /\ UNCHANGED <<tid, stage>>
          [] e.ev \in {"panic", "timeout"} -> Crash(e) /\ UNCHANGED <<tid, stage>>
          [] OTHER -> Chk(FALSE, "MACHINERY", "unknown-event", e.ev) /\ UNCHANGED <<tid, stage>>
 Spec == Init /\ [][Next]_<<l, tid, stage>>
